@@ -827,8 +827,8 @@ def apply_contract(ex, st, fi, c, env, node):
                 try:
                     g = spec_eval(ex, st, e2, text, old=ex.entry_old, result=result)
                 except Unsupported as u:
-                    if "unknown name" in u.msg:
-                        continue            # the lemma mentions a local that does not exist yet at this call
+                    if "unknown name" in u.msg or ex.call_stack:
+                        continue            # the lemma mentions a local that does not exist (yet) at this call / is not meant for this inlined helper
                     raise
                 ex.assumed_used.add(f"assumed after the call to {c.target} in {cur.target}: {text}")
                 st.assume(g)
